@@ -197,3 +197,31 @@ _add(
     technique=('deterministic simulation: seeded edit histories on 1-3 '
                'scheduled threads, snapshot-derived history oracle, replay'),
 )
+
+_add(
+    'C04', machine='partial', level='exploration',
+    tiers={'quick': {'count': 20000, 'budget_s': 40},
+           'thorough': {'count': 1000000, 'budget_s': 780}},
+    rule=('seeded Partial/ArgFactory/Config nestings (factory in list / tuple '
+          '/ dict, factory of factory, Config inside factory, Partial inside '
+          'Partial, positional factories on *args signatures, shared constant '
+          'nodes and containers) and a history of builds and 2-6 calls with '
+          'keyword overrides and extra positionals; one canon over all results '
+          'of the history vs the reference; non-trivial = >= 2 successful '
+          'calls; distinct = distinct case hash'),
+    real_vs_stub=REAL + 'stub: configured callables; the PartialModel reference',
+    assumptions=['one ArgFactory instance is never referenced twice inside one '
+                 'Partial (within-call sharing is unspecified)',
+                 'ArgFactory appears only under Partial / ArgFactory'],
+    required_probes=['calls_with_override', 'with_arg_factory',
+                     'nested_partial_calls'],
+    level_text=('seeded search over nestings x call histories; the built '
+                'callable is an object that lives across calls, so freshness '
+                'vs reuse is a relation over the whole history and is decided '
+                'by one canon over all results'),
+    design_ref='DESIGN.md 4 (C04)',
+    level_note=('trusted: the PartialModel (machines/partial.py PM/RefPartial), '
+                'canon with callables opaque'),
+    technique=('deterministic simulation: seeded nestings and call histories '
+               'against an executable functools.partial reference, replay'),
+)
